@@ -18,6 +18,7 @@ Terms (tuples; every value is unsigned):
   word level: ("add"|"sub"|"mul"|"div"|"mod"|"eq"|"ne"|"lt"|"ge"|"shl"|"shr", a, b), ("neg"|"bool"|"any"|"all"|"rxor", a),
               ("bsel", value, offset, width), ("arr", index, e0, e1, ...) [index word level, elements bit-precise],
               ("amem", addr, width) [asynchronous memory read]
+  ("psel", "b"|"w", value, signed, offset, width)  run-time bit_select / word_select, see deps()
 """
 
 EMPTY = frozenset()
@@ -96,6 +97,31 @@ def deps(t, memo=None):
         r = [iu | _union([e[i] for e in es if i < len(e)]) for i in range(w)]
     elif k == "amem":
         r = [_union(deps(t[1], memo))] * t[2]
+    elif k == "psel":
+        # ("psel", "b"|"w", value, signed, offset, width): value.bit_select(offset, width) / value.word_select(offset, width)
+        # with a run-time offset.  Reading selected by memo["__mode__"]:
+        #   "word"    every window bit depends on every value bit and every offset bit (the coarse, word-level reading)
+        #   "precise" window bit k is value[k + off*stride] for some representable off (stride 1 for bit_select, `width`
+        #             for word_select); positions past the MSB read the sign bit if the value is signed, zero otherwise
+        #   "stridew" like precise but with stride = width for both (only used to CLASSIFY which cycles need stride 1)
+        _, kind, value, signed, offset, w = t
+        vd, od = deps(value, memo), deps(offset, memo)
+        ou = _union(od)
+        mode = memo.get("__mode__", "word")
+        if mode == "word":
+            r = [ou | _union(vd)] * w
+        else:
+            stride = w if (kind == "w" or mode == "stridew") else 1
+            r = []
+            for kbit in range(w):
+                d = set(ou)
+                for off in range(1 << len(od)):
+                    pos = kbit + off * stride
+                    if pos < len(vd):
+                        d |= vd[pos]
+                    elif signed and vd:
+                        d |= vd[-1]
+                r.append(frozenset(d))
     else:
         raise ValueError(t)
     memo[t] = r
@@ -112,9 +138,9 @@ def width(t, memo=None):
     return len(deps(t, memo))
 
 
-def _contributions(stmts, nbits_of_sig, node_of):
+def _contributions(stmts, nbits_of_sig, node_of, mode="word"):
     """-> list of (stmt index, node, frozenset deps): what every statement contributes to every bit it can assign"""
-    memo = {}
+    memo = {"__mode__": mode}
     out = []
     for k, s in enumerate(stmts):
         cd = EMPTY
@@ -153,11 +179,11 @@ def _graph(contribs, skip=()):
     return g
 
 
-def node_graph(stmts, nbits_of_sig, node_of):
+def node_graph(stmts, nbits_of_sig, node_of, mode="word"):
     """stmts (in assignment order): list of dicts {dom, conds:[terms], lhs: ("bits",[nodes]) | ("bsel", sig, offset_term) |
     ("arr",[nodes],index_term), rhs: term}.  -> {node: frozenset(nodes it combinationally depends on)}; every statement
     that can assign a bit contributes (no liveness analysis)."""
-    return _graph(_contributions(stmts, nbits_of_sig, node_of))
+    return _graph(_contributions(stmts, nbits_of_sig, node_of, mode))
 
 
 def _unconditional_cover(s):
